@@ -271,6 +271,18 @@ PROPS = {
         "design_ref": "DESIGN.md §3 C11 (as built)",
         "level_note": "trusts clang 14 CFGs; the enumeration clauses of C11 stay undecided and are listed under assumptions",
     },
+    "C20": {
+        "title": "Saturation over a partitioned relation equals reachability over its union",
+        "rules": [rules_ftype.rule_mix_satur_events],
+        "explanation": STRUCTURAL + ". C20: cross-forest clause only — in saturation by events / by levels (sat_pregen.cc: saturate, saturateHelper and recFire of the forward and backward variants) and in the relation splitter and event bookkeeping (sat_relations.cc: splitMxd, findConfirmedStates, …) "
+                       "every node handle is used only with the forest it belongs to (state-set forest, relation forest, result forest), on every path.",
+        "assumptions": ["that the fixed point computed equals reachability under the union of the events is algorithmic semantics and is not decided", "the ownership engine is not armed in these files (they use the older compute-table idioms it does not model)",
+                        "handles read from compute-table results are untyped until linked with a forest"],
+        "technique": "forest-indexed typing of node handles (path-sensitive dataflow over clang CFGs, symbols = forest members of the operation / relation classes)",
+        "level_text": "exact static rule check over every function of sat_pregen.cc and sat_relations.cc that pairs a handle with a forest; decides the cross-forest clause only",
+        "design_ref": "DESIGN.md §2.2, §3 C20 (as built)",
+        "level_note": "trusts clang 14 CFGs and the role tables of tool/msa/ftype.cc; the equality-of-fixed-points statement itself stays undecided",
+    },
     "C19": {
         "title": "Values survive encoding into terminals and edge values",
         "rules": [on_program(rules_guard.rule_int_overflow), on_program(rules_guard.rule_edge_for_value), on_program(rules_guard.rule_zero_of_stored), on_program(rules_codec.rule_terminal_codec), on_program(rules_codec.rule_tokens)],
@@ -287,8 +299,7 @@ PROPS = {
 _PENDING ="check under construction in this round (planned rules: DESIGN.md §3); not claimed until it runs"
 NOT_APPLICABLE = {
     "C18": "non-overlap/content preservation over arbitrary request/recycle sequences is a heap-shape invariant over run-time addresses; no abstract interpreter for these C++ units is available (DESIGN §3 C18)",
-    "C20": "equality of two fixed-point computations over event lists; algorithmic semantics (DESIGN §3 C20)",
 }
-for _p in ("C01", "C02", "C03", "C04", "C05", "C06", "C07", "C08", "C09", "C10", "C11", "C12", "C13", "C14", "C15", "C16", "C19"):
+for _p in ("C01", "C02", "C03", "C04", "C05", "C06", "C07", "C08", "C09", "C10", "C11", "C12", "C13", "C14", "C15", "C16", "C19", "C20"):
     if _p not in PROPS:
         NOT_APPLICABLE[_p] = _PENDING
